@@ -10,7 +10,7 @@ import os, re, random, shutil, hashlib
 from lib import core, pptok
 
 LEVEL = 'exploration'
-MIN_COUNTS = {'cases_compared': (1800, 45000), 'determinism_runs': (100, 2000), 'memcheck_runs': (2, 30)}
+MIN_COUNTS = {'cases_compared': (2100, 60000), 'determinism_runs': (100, 2000), 'memcheck_runs': (2, 30)}
 
 # the stages run at different instants: __DATE__/__TIME__ are pinned by a preloaded time() so that they cannot differ
 FIXED_CLOCK = {'LD_PRELOAD': os.path.join(core.VERIF, 'build', 'faketime.so'), 'VERIF_TIME_FIXED': '1790000000'}
@@ -22,6 +22,10 @@ HOSTILE_LITS = ['0.0/0.0', '1e30', '-1e30', '1e19', '-0.5', '1.0/0.0', '-1.0/0.0
                 '1e300*1e300', '1e-320', '0x1p63', '0x1p64', '-0x1p63', '4294967296.0', '2147483648.0f', '0x1p31', '1e10f', '18446744073709551615u', '0x80000000', '2147483647',
                 '0', '1', '0.1', '0.1f', '0.1L', '1e4000L', '1e-4940L', '255', '256', '-129', '65535', '1.5', '0x1.fffffffffffffp1023', "'a'", '(char)200', '(_Bool)2']
 HOSTILE_TYPES = ['char', 'unsigned char', 'short', 'unsigned short', 'int', 'unsigned', 'long', 'unsigned long', '_Bool', 'float', 'double', 'long double']
+
+
+# constants whose folded value depends on the FPU rounding state of the *compiler process*: they must not be affected by what was folded before them
+FP_TRAILER = 'float tr1 = 0.1; long double tr2 = 1.0L / 3; double tr3 = 0.7; float tr4 = 16777217.0; double tr5 = 1e22 / 3; long double tr6 = 0.1L * 3; float tr7 = 1.0f / 3.0f;'
 
 
 def hostile_consts(rng):
@@ -48,6 +52,7 @@ def hostile_consts(rng):
             lines.append('%s ha%d[3] = {%s, %s};' % (t, i, e(2), e(2)))
         else:
             lines.append('struct { %s a; int b : 7; %s c; } hs%d = {%s, %s, %s};' % (t, rng.choice(HOSTILE_TYPES), i, e(2), e(1), e(2)))
+    lines.append(FP_TRAILER)
     lines.append('int f(void) { switch (h0 != 0) { case (int)(%s): return 1; } return sizeof(char [1 + ((%s) != 0)]); }' % (rng.choice(HOSTILE_LITS), rng.choice(HOSTILE_LITS)))
     return '\n'.join(lines) + '\n'
 
@@ -160,7 +165,7 @@ def run(ctx):
     grid += ['long hgNN = (%s) %s (%s);' % (a, op, b) for op in ('/', '%', '<<', '>>', '*', '+', '-') for a in ints for b in ints]
     for k in range(0, len(grid), 8):
         p = os.path.join(gen, 'hgrid%d.c' % k)
-        open(p, 'w').write('\n'.join(g.replace('hgNN', 'hg%d' % (k + j)) for j, g in enumerate(grid[k:k + 8])) + '\n')
+        open(p, 'w').write('\n'.join(g.replace('hgNN', 'hg%d' % (k + j)) for j, g in enumerate(grid[k:k + 8])) + '\n' + FP_TRAILER + '\n')
         corpus.append((p, [], 'gen-hostile-const'))
     # two erroneous operands in one constant expression: which diagnostic comes first must not depend on the host compiler's
     # evaluation order (every binary operator x ordered pair of distinct invalid operands x context)
@@ -181,6 +186,30 @@ def run(ctx):
         e2 = e.replace('nonconst_a', 'A').replace('nonconst_b', 'B').replace('fn()', 'C').replace('*ptr', 'D').replace('"s"', '1') if cx.startswith('#if') else e
         open(p, 'w').write('int nonconst_a, nonconst_b, *ptr; int fn(void);\n' + cx % e2 + '\n')
         corpus.append((p, [], 'gen-invalid-const'))
+    # operand-type grid: every operator applied to every kind of operand (void call, struct, pointer, function, array, floating ...): mostly
+    # invalid programs whose diagnostics - or acceptance - must not depend on the host compiler (e.g. on the signedness of its enums)
+    kinds = ['vf()', 'sv', 'iv', 'pv', 'dv', 'av', 'vf', '(void)0', '*pv', 'sv.a', '&sv', '"str"', 'ev', 'bv', 'fp']
+    tg = []
+    for op in ('+', '-', '*', '/', '%', '&', '|', '^', '<<', '>>', '==', '!=', '<', '<=', '&&', '||', '=', '+=', ','):
+        for a in kinds:
+            for b in kinds:
+                tg.append('(%s) %s (%s);' % (a, op, b))
+    for a in kinds:
+        tg += ['-(%s);' % a, '~(%s);' % a, '!(%s);' % a, '*(%s);' % a, '&(%s);' % a, '(%s)++;' % a, '--(%s);' % a, 'if (%s) ;' % a, 'while (%s) break;' % a, '(%s) ? 1 : 2;' % a,
+               'iv ? (%s) : (%s);' % (a, a), '(int)(%s);' % a, '(double)(%s);' % a, 'iv = (%s);' % a, 'return (%s);' % a, 'switch (%s) { case 1: ; }' % a, 'sizeof(%s);' % a,
+               '(%s)(1);' % a, '(%s)[1];' % a, '(%s).a;' % a, '(%s)->a;' % a, '_Alignof(%s);' % a, 'iv = _Generic((%s), int: 1, default: 2);' % a]
+    for k, e in enumerate(tg if ctx.tier == 'thorough' else rng.sample(tg, 300)):
+        p = os.path.join(gen, 'tg%d.c' % k)
+        open(p, 'w').write('void vf(void); struct S { int a; } sv; int iv; int *pv; double dv; int av[3]; enum E { E1 } ev; _Bool bv; int (*fp)(int);\nint t(void) { %s return 0; }\n' % e)
+        corpus.append((p, [], 'gen-type-grid'))
+    # literal-heavy files (wide / UTF-16 / UTF-32 buffers are allocated per literal)
+    from props import C11
+    lits = C11.string_cases(rng, 2)
+    for k in range(ctx.scale(6, 60)):
+        p = os.path.join(gen, 'lit%d.c' % k)
+        sel = rng.sample(lits, min(len(lits), 40))
+        open(p, 'w').write('\n'.join('const %s lt%d_%d[] = %s;' % (el, k, j, text) for j, (text, el, key) in enumerate(sel)) + '\n')
+        corpus.append((p, [], 'gen-literals'))
     nm = ctx.scale(400, 20000)
     tsrc = [(f, open(os.path.join(snap, 'test', f), errors='surrogateescape').read()) for f in tests]
     for k in range(nm):
@@ -196,7 +225,7 @@ def run(ctx):
             osets = [['-E']]
         elif kind in ('own', 'test'):
             osets = OPTSETS if ctx.tier == 'thorough' else [OPTSETS[0], OPTSETS[2], rng.choice(OPTSETS[1:])]
-        elif kind in ('mutant', 'gen-hostile-const', 'gen-invalid-const'):
+        elif kind in ('mutant', 'gen-hostile-const', 'gen-invalid-const', 'gen-type-grid', 'gen-literals'):
             osets = [['-S']]
         else:
             osets = [['-S'], rng.choice([['-c'], ['-E'], ['-S', '-fPIC']])]
@@ -227,8 +256,8 @@ def run(ctx):
     # determinism of one binary
     dj = []
     dmeta = {}
-    cand = [(p, e, k) for (p, e, k) in corpus if k in ('own', 'test', 'gen-control')]
-    sel = cand if ctx.tier == 'thorough' else rng.sample(cand, min(len(cand), 40))
+    cand = [(p, e, k) for (p, e, k) in corpus if k in ('own', 'test', 'gen-control', 'gen-literals')]
+    sel = cand if ctx.tier == 'thorough' else rng.sample(cand, min(len(cand), 40)) + [c for c in cand if c[2] == 'gen-literals']
     for (path, extra, kind) in sel:
         try:
             txt = open(path, errors='replace').read()
@@ -253,6 +282,7 @@ def run(ctx):
     # memcheck on stage-2 runs
     mc = [(s2, os.path.join(snap, f), ['-I' + snap], work, i) for i, f in enumerate(['strings.c', 'hashmap.c', 'type.c'] if ctx.quick() else srcs)]
     mc += [(s2, os.path.join(snap, 'test', f), ['-I' + os.path.join(snap, 'test'), '-I' + snap], work, 100 + i) for i, f in enumerate(tests[:ctx.scale(3, 30)])]
+    mc += [(s2, p, [], work, 200 + i) for i, (p, e, k) in enumerate([c for c in corpus if c[2] == 'gen-literals'][:ctx.scale(3, 20)])]
     for path, rc, et in core.pmap(run_memcheck, mc):
         ctx.evaluations += 1
         ctx.count('memcheck_runs')
